@@ -55,6 +55,10 @@ NEEDS = {
  "C08c": "rc == true and a caller-supplied non-identity permutation (the rc operand of the score loses its permutation lookup)",
  "C03e": "remove_censored_exts with stranded == true (the target is always canonicalised)",
  "C02d": "stranded mode, even K, a self-reverse-complement k-mer inside an unbranched path that is not the seed (the walk stops in front of it)",
+ "C06c": "stranded = true (the canonicalisation guard `if !self.stranded` is dropped in CompressFromHash::try_extend_kmer)",
+ "C07c": "k == p: the post-tested minimum search also reads the p-mer at start + 1, outside the k-mer (out-of-bounds panic at the last window)",
+ "C10c": "a partial-width VarIntKmer type and set_slice_mut of a run that ends before the last base (bottom mask half as wide as it should be)",
+ "C17c": "Lmer<[u64;5]> or Lmer<[u64;6]> with length >= 128 (length byte masked with 0x7f)",
  "C02c": "a join predicate that is reflexive but not constant (colour equality): join_test(kmer_data, kmer_data) always accepts",
 }
 def detection(sid):
